@@ -562,6 +562,34 @@ func checkOccurrenceShortcut(c *Ctx, p *core.Prog) {
 		c.R.Info("R13.4", "findMatches: exact occurrences", p.Pos(fm.Pos()), "no regular-expression occurrence search in findMatches")
 		return
 	}
+	// R13.9: the scan for exact occurrences runs for every known value that can occur in the text - also for one that is as
+	// long as the text (the text *is* the value): a length test in front of it is inclusive, never strict
+	{
+		strict := ""
+		for db := range core.NewPostDom(occ.Parent()).TransitiveControlDeps()[occ.Block()] {
+			ifi, isIf := db.Instrs[len(db.Instrs)-1].(*ssa.If)
+			if !isIf {
+				continue
+			}
+			bo, isBo := ifi.Cond.(*ssa.BinOp)
+			if !isBo || (bo.Op != token.LSS && bo.Op != token.GTR) {
+				continue
+			}
+			isLen := func(v ssa.Value) bool {
+				call, ok := v.(*ssa.Call)
+				if !ok {
+					return false
+				}
+				bi, ok := call.Call.Value.(*ssa.Builtin)
+				return ok && bi.Name() == "len"
+			}
+			if isLen(bo.X) && isLen(bo.Y) {
+				strict = p.Pos(bo.Pos())
+			}
+		}
+		c.R.Check(strict == "", "R13.9", "findMatches: the scan for exact occurrences is not skipped for a value as long as the text", p.Pos(occ.Pos()),
+			"no strict length comparison stands in front of the scan", "the scan depends on a strict comparison of two lengths ("+strict+"): a text that equals a known value is not found verbatim, its confidence and range come from the approximate path")
+	}
 	// (a) no token range is built from loop-carried token indices (the old shape)
 	nTok := 0
 	for _, f := range core.WithAnon(fm) {
